@@ -70,6 +70,11 @@ LeavesOf(fam) ==
                           Uni(<<Ref("Cp"), Ref("Sq")>>),
                           Uni(<<Obj(<<Prop("kind", LS("a-b"), FALSE), Prop("x", TNumber, FALSE)>>, <<>>),
                                 Obj(<<Prop("kind", LS("a_b"), FALSE), Prop("y", TString, FALSE)>>, <<>>)>>),
+                          \* discriminator values that are special as keys of a JavaScript object literal / table
+                          Uni(<<Obj(<<Prop("kind", LS("__proto__"), FALSE), Prop("x", TNumber, FALSE)>>, <<>>),
+                                Obj(<<Prop("kind", LS("sq"), FALSE), Prop("y", TString, FALSE)>>, <<>>)>>),
+                          Uni(<<Obj(<<Prop("kind", LS("hasOwnProperty"), FALSE), Prop("x", TNumber, FALSE)>>, <<>>),
+                                Obj(<<Prop("kind", Uni(<<LS("__proto__"), LS("valueOf")>>), FALSE), Prop("y", TString, TRUE)>>, <<>>)>>),
                           \* three discriminator values that sanitize to one name part
                           Uni(<<Obj(<<Prop("kind", LS("u-c"), FALSE), Prop("x", TNumber, FALSE)>>, <<>>),
                                 Obj(<<Prop("kind", LS("u_c"), FALSE), Prop("y", TString, FALSE)>>, <<>>),
